@@ -9,20 +9,27 @@ strings, so a line terminator inside a quoted string (or after an unterminated q
 when the stream arrives in pieces and not when it arrives whole.  `chunking_counterexample` proves the
 negation on a concrete stream.  A second, benign difference: a chunk boundary between the CR and the LF
 of a CR LF terminator makes the LF an (empty) message of its own (`chunking_crlf_difference`).
-What is proved: streams without quote characters and without CR
-in ANY partition (`…_partial`, `…_noquote_nocr`, `…_bytewise_partial`), and streams without quote
-characters (CR LF and lone CR terminators allowed) in any partition that does not cut directly after a CR
-(`…_cr_partial`).  Definite-length blocks are covered in both.
+What is proved:
+* for what a USER of the library can observe (`UserObservable`: `Observable` without the `parseMsg` markers
+  of the verification hook — handlers, parameters, errors, output, flushes, registers, error queue,
+  remainder): streams without quote characters in ANY partition, cuts directly after a CR included
+  (`chunking_invariant_noquote`, `chunking_bytewise_noquote`, `input_split_noquote`);
+* for `Observable` itself (message boundaries included): streams without quote characters and without CR
+  in any partition (`…_partial`, `…_noquote_nocr`, `…_bytewise_partial`), and streams without quote
+  characters (CR LF and lone CR terminators allowed) in any partition that does not cut directly after a CR
+  (`…_cr_partial`).
+Definite-length blocks are covered throughout.
 -/
 import ScpiVerif.Model.Ctx
 import ScpiVerif.Spec.Chunking
 import ScpiVerif.Lemmas.Chunking
 import ScpiVerif.Lemmas.ParseLocal
+import ScpiVerif.Lemmas.ChunkingCR
 
 namespace ScpiVerif.Props.C08
 open ScpiVerif ScpiVerif.Ctx ScpiVerif.Lexer
 
--- `Observable`, `NoQuotes`, `NoCR`, `Fits` are defined in ScpiVerif/Spec/Chunking.lean (this namespace)
+-- `Observable`, `UserObservable`, `NoQuotes`, `NoCR`, `Fits` are defined in ScpiVerif/Spec/Chunking.lean (this namespace)
 
 /-
 NOT YET PROVED (FALSE as stated — chunking_counterexample, chunking_crlf_difference): the unrestricted statement
@@ -101,6 +108,37 @@ theorem chunking_invariant_cr_partial (c : Ctx) (h : WF c) (cs cs' : List Bytes)
     (hcut : (∀ x ∈ cs, x.getLast? ≠ some 13) ∧ (∀ x ∈ cs', x.getLast? ≠ some 13)) :
     Observable (cs.foldl input c) = Observable (cs'.foldl input c) :=
   Lemmas.Chunking.chunking_invariant_cr2 Lemmas.Chunking.parseLocalCR c h cs cs' hne hs hcs hfit hq hcut
+
+/-- what a user can observe does not depend on the partition of a stream without quote characters at all:
+ANY two partitions into non-empty chunks, cuts directly after a CR included.  (When a chunk ends in the CR
+of a CR LF, the CR ends the message and the LF arriving with the next chunk is parsed as an empty message:
+no handler, no output, no flush, no error; `Lemmas.Chunking.parse_crlf` shows that SCPI_Parse does the same
+on `m CR LF` and on `m CR`.) -/
+theorem chunking_invariant_noquote (c : Ctx) (h : WF c) (cs cs' : List Bytes)
+    (hne : (∀ x ∈ cs, x ≠ []) ∧ (∀ x ∈ cs', x ≠ [])) (hs : cs.flatten = cs'.flatten) (hcs : cs ≠ [])
+    (hfit : Fits c cs.flatten.length) (hq : NoQuotes (c.buf.take c.position ++ cs.flatten)) :
+    UserObservable (cs.foldl input c) = UserObservable (cs'.foldl input c) :=
+  Lemmas.Chunking.chunking_invariant_noquote c h cs cs' hne hs hcs hfit hq
+
+/-- in particular any partition behaves, for the user, like feeding the stream one byte at a time -/
+theorem chunking_bytewise_noquote (c : Ctx) (h : WF c) (cs : List Bytes)
+    (hne : ∀ x ∈ cs, x ≠ []) (hcs : cs ≠ [])
+    (hfit : Fits c cs.flatten.length) (hq : NoQuotes (c.buf.take c.position ++ cs.flatten)) :
+    UserObservable (cs.foldl input c) = UserObservable ((cs.flatten.map fun b => [b]).foldl input c) := by
+  have hf : ∀ s : Bytes, (s.map fun b => [b]).flatten = s := by
+    intro s; induction s with
+    | nil => rfl
+    | cons a t ih => simp [ih]
+  refine chunking_invariant_noquote c h cs _ ⟨hne, ?_⟩ (hf _).symm hcs hfit hq
+  intro x hx
+  obtain ⟨b, _, rfl⟩ := List.mem_map.1 hx
+  simp
+
+/-- and splitting one chunk in two, anywhere, changes nothing the user can observe -/
+theorem input_split_noquote (c : Ctx) (h : WF c) (a b : Bytes) (ha : a ≠ []) (hb : b ≠ [])
+    (hfit : Fits c (a.length + b.length)) (hq : NoQuotes (c.buf.take c.position ++ a ++ b)) :
+    UserObservable (input (input c a) b) = UserObservable (input c (a ++ b)) :=
+  (Lemmas.Chunking.inputU_split c h a b ha hb hfit hq).obs
 
 /-- a zero-length call executes whatever is buffered as one complete message and empties the buffer -/
 theorem flush_executes_pending (c : Ctx) (h : WF c) :
